@@ -71,7 +71,7 @@ class Dgelss:
 
     def __call__(self, row, col, nrhs, A, lda, b, ldb, S, rcond, rank, work, lwork, info):
         r, c = int(row[0]), int(col[0])
-        rec = dict(rows=r, cols=c, lda=int(lda[0]), ldb=int(ldb[0]), nrhs=int(nrhs[0]), A=[A[i] for i in range(r * c)], b=[b[i] for i in range(r)])
+        rec = dict(solver="dgelss", rows=r, cols=c, lda=int(lda[0]), ldb=int(ldb[0]), nrhs=int(nrhs[0]), A=[A[i] for i in range(r * c)], b=[b[i] for i in range(r)])
         self.calls.append(rec)
         if self.mode == "numpy":
             Am = numpy.array(rec["A"], dtype=float).reshape(c, r).T  # column-major
@@ -87,6 +87,54 @@ class Dgelss:
                 b[j] = beta[j]
             rec["beta"] = beta
         info[0] = 0
+
+
+class Dgels:
+    """dgels (QR/LQ): same recording; its documented contract only covers FULL RANK matrices"""
+
+    solver = "dgels"
+
+    def __init__(self, mode, e=None, log=None):
+        self.mode, self.e = mode, e
+        self.calls = log if log is not None else []
+
+    def __call__(self, trans, row, col, nrhs, A, lda, b, ldb, work, lwork, info):
+        r, c = int(row[0]), int(col[0])
+        rec = dict(solver="dgels", rows=r, cols=c, lda=int(lda[0]), ldb=int(ldb[0]), nrhs=int(nrhs[0]), A=[A[i] for i in range(r * c)], b=[b[i] for i in range(r)])
+        self.calls.append(rec)
+        if self.mode == "numpy":
+            from scipy.linalg import lapack
+
+            Am = numpy.array(rec["A"], dtype=float).reshape(c, r).T
+            bv = numpy.zeros(max(r, c))
+            bv[:r] = numpy.array(rec["b"], dtype=float)
+            _, sol, inf = lapack.dgels(Am, bv)
+            for j in range(c):
+                b[j] = float(sol[j])
+            rec["beta"] = [float(v) for v in sol[:c]]
+            info[0] = int(inf)
+            return
+        k = len(self.calls)
+        beta = [self.e.real(f"beta{k}_{j}") for j in range(c)]
+        for j in range(c):
+            b[j] = beta[j]
+        rec["beta"] = beta
+        info[0] = 0
+
+
+RANK_REVEALING = ("dgelss", "dgelsd", "dgelsy")  # LAPACK drivers whose contract covers rank-deficient matrices
+
+
+class Lapack:
+    """the cython_lapack namespace of the lowered module: one call log for whichever driver the code uses"""
+
+    def __init__(self, mode, e=None):
+        self.dgelss = Dgelss(mode, e)
+        self.calls = self.dgelss.calls
+        self.dgels = Dgels(mode, e, self.calls)
+
+    def __getattr__(self, name):
+        raise sx.SXError(f"cython_lapack.{name}: a LAPACK routine this check has no contract for")
 
 
 # ------------------------------------------------------------------ drivers (same code for both implementations)
@@ -144,7 +192,7 @@ def run_validate(cfg):
         for (s, p, e) in _triples(n):
             cc = make(common_c, cls_c, kind, n, numpy.ascontiguousarray(X))
             ref = drive(common_c, cc, numpy.ascontiguousarray(y.reshape(-1, 1)), w, wsum, samples, s, p, e)
-            L.cython_lapack.dgelss = Dgelss("numpy")
+            L.cython_lapack = Lapack("numpy")
             lc = make(L, getattr(L, CLS[kind]), kind, n, X)
             got = drive(L, lc, y.reshape(-1, 1), w, wsum, samples, s, p, e)
             for k in ("value", "impurity", "proxy"):
@@ -185,8 +233,8 @@ def run_crit(cfg):
             wv = list(w)
         X = e.reals("X", n, d) if kind == "linear" else None
         wsum = sx.ssum(wv)
-        hook = Dgelss("symbolic", e)
-        L.cython_lapack.dgelss = hook
+        hook = Lapack("symbolic", e)
+        L.cython_lapack = hook
         crit = make(L, getattr(L, CLS[kind]), kind, n, X)
         samples = numpy.array(order)
         obs = drive(L, crit, y2, w, wsum, samples, s0, p0, e0)
@@ -235,6 +283,9 @@ def run_crit(cfg):
                 e.prove(okd, label + "/dgelss-dimensions")
                 if not okd:
                     return None
+                # the node's design [X, 1] is arbitrary here -- duplicated rows, a feature constant inside the node --
+                # so the fit must come from a driver whose contract covers rank-deficient matrices
+                e.prove(rec["solver"] in RANK_REVEALING, "linear/least-squares-driver-covers-rank-deficient-designs", detail=rec["solver"])
                 for r, i in enumerate(ii):
                     for j in range(d + 1):
                         e.prove_eq(rec["A"][j * len(ii) + r], (X[i, j] if j < d else 1) * wv[i], label + "/dgelss-gets-exactly-the-node-rows")
@@ -298,8 +349,44 @@ def run_crit(cfg):
     return dict(stats=eng.stats.as_dict(), violations=viol)
 
 
+def replay_rankdef():
+    """real PiecewiseTreeRegressor(criterion='mselin') on designs that are rank deficient inside a leaf:
+    predictions == per-leaf least-squares fitted values (unique even then), root impurity == MSE of that fit"""
+    ptr = loader.load("mlmodel.piecewise_tree_regression", with_ext=True)
+    rng = numpy.random.RandomState(0)
+    n = 60
+    x0 = numpy.sort(rng.uniform(-2, 2, n))
+    y = 1.5 * x0 - 0.5 + rng.normal(size=n) * 0.3
+    step = (x0 > 0).astype(float)
+    designs = dict(null_column=numpy.c_[x0, numpy.zeros(n)], constant_column=numpy.c_[x0, numpy.full(n, 3.7)], duplicated_column=numpy.c_[x0, x0], step_feature=numpy.c_[x0, step])
+    for name, X in designs.items():
+        X = numpy.ascontiguousarray(X)
+        for kw in (dict(min_samples_leaf=n), dict(max_depth=1, min_samples_leaf=10)):
+            try:
+                est = ptr.PiecewiseTreeRegressor(criterion="mselin", **kw).fit(X, y)
+                pred = est.predict(X)
+                leaves = est.apply(X)
+            except Exception as ex:
+                return True, dict(design=name, raised=f"{type(ex).__name__}: {str(ex)[:160]}")
+            for l in numpy.unique(leaves):
+                rows = leaves == l
+                A = numpy.hstack([X[rows], numpy.ones((rows.sum(), 1))])
+                fitted = A @ numpy.linalg.lstsq(A, y[rows], rcond=None)[0]
+                err = float(numpy.abs(fitted - pred[rows]).max())
+                if not err <= 1e-6 * max(1.0, float(numpy.abs(y).max())):
+                    return True, dict(design=name, params=kw, leaf=int(l), rows=int(rows.sum()), rank=int(numpy.linalg.matrix_rank(A)), columns=A.shape[1], max_abs_error=err)
+            A = numpy.hstack([X, numpy.ones((n, 1))])
+            mse = float(((A @ numpy.linalg.lstsq(A, y, rcond=None)[0] - y) ** 2).mean())
+            got = float(est.tree_.impurity[0])
+            if not abs(got - mse) <= 1e-6 * max(1.0, mse):
+                return True, dict(design=name, params=kw, root_impurity=got, mse_of_the_linear_fit=mse)
+    return False, "rank-deficient leaves: predictions are the least-squares fitted values"
+
+
 def replay(cfg, inputs, label):
     """compiled extension, concrete floats, independent NumPy oracle"""
+    if "covers-rank-deficient-designs" in label or cfg["kind"] == "contract":
+        return replay_rankdef()
     if cfg["kind"] == "pyside":
         ok, obs = harness.replay_scenario(run_py(cfg), inputs, label)
         return (ok, obs) if ok else replay_py(cfg, inputs, label)
@@ -405,6 +492,8 @@ def run_py(cfg):
             return scipy.sparse.csr_matrix(m)
 
         est.decision_path = decision_path
+        # the same routing through the other accessor of the fitted tree (node index of each row's leaf)
+        est.apply = lambda Xa, check_input=True: numpy.array([leaves_nodes[l] for l in (leaf_of if Xa is X else qleaf)], dtype=numpy.int64)
         name = "mlinsights.mlmodel.piecewise_tree_regression_criterion_linear"
         old = sys.modules.get(name)
         sys.modules[name] = types.SimpleNamespace(LinearRegressorCriterion=FakeCrit)
@@ -479,9 +568,22 @@ def replay_py(cfg, inputs, label):
     return False, "predictions are the per-leaf least-squares fits"
 
 
+def run_contract(cfg):
+    """the assumption behind the symbolic LAPACK stub ("a rank-revealing driver answers the least-squares
+    fit of whatever design it is handed") checked on the compiled code for designs that are rank deficient
+    inside a leaf; a failure is a C09 violation (predictions are not the per-leaf fit), replay = same run"""
+    ok, obs = replay_rankdef()
+    label = "linear/least-squares-driver-covers-rank-deficient-designs(compiled)"
+    viol = [harness.violation(label, label, cfg, {}, obs, True)] if ok else []
+    st = sx.Stats()
+    return dict(stats=st.as_dict(), violations=viol, validated=8)
+
+
 def run_config(cfg):
     if cfg["kind"] == "validate":
         return run_validate(cfg)
+    if cfg["kind"] == "contract":
+        return run_contract(cfg)
     if cfg["kind"] == "pyside":
         return harness.run_scenario(run_py(cfg), f"C09{cfg}", cfg=cfg, sig=lambda l: "pyside/" + l)
     return run_crit(cfg)
@@ -491,6 +593,7 @@ def configs(tier):
     out = []
     for kind in ("simple", "fast", "linear"):
         out.append(dict(kind="validate", kind_c=kind, n=5, trials=3 if tier == "quick" else 10, seed=7, d=1))
+    out.append(dict(kind="contract"))
     nmax = 4 if tier == "quick" else 5
     for kind in ("simple", "fast"):
         for n in range(1, nmax + 1):
